@@ -227,7 +227,7 @@ def read_meta_image_from_fileobj(f: io.BufferedReader) -> Tuple[np.ndarray, Meta
             "HeaderSizePerSlice",
             "ElementNumberOfChannels",
         ):
-            meta[key] = np.uintp(value)
+            meta[key] = int(value)
         elif key in (
             "CompressedData",
             "BinaryData",
